@@ -204,6 +204,9 @@ func genOp(r *rand.Rand, ws []weighted, actor int, ttl int64) Op {
 		op.Key = pickKey(r, true)
 	case "locend":
 		op.Key = pickKey(r, false) // an empty end key is out of scope (known finding F1)
+		if r.Intn(2) == 0 {
+			op.Key = borders[r.Intn(len(borders))] // a border: the region that ENDS there is wanted
+		}
 	case "byid":
 		op.Key = pickKey(r, true)
 		if r.Intn(3) == 0 {
